@@ -18,7 +18,7 @@ import numpy as np
 
 from .. import exprs as E
 from .. import gen
-from .common import build_both, compare_errors, fl, mpf, mpf_s, sym_vs_lean, vec_close
+from .common import multiset_close, build_both, compare_errors, fl, mpf, mpf_s, sym_vs_lean, vec_close
 
 PROP = "C12"
 LEAN = {"module": "Pygom.Props.C12",
@@ -116,7 +116,7 @@ def run_case(case):
                 viol.append({"what": "jacobian(x,t) differs between equivalent specifications", "signature": sig(case), "detail": "%s vs %s" % (JA.tolist(), JB.tolist())})
             if not as_ode:
                 qa, qb = pairs(mA, x, t, nS), pairs(mB, x, t, nS)
-                if len(qa) != len(qb) or not all(vec_close(u, w, rel=1e-9, abs_=1e-9) for u, w in zip(qa, qb)):
+                if not multiset_close(qa, qb):
                     viol.append({"what": "(eventRateVector, vMat column) multiset differs between equivalent specifications", "signature": sig(case),
                                  "detail": "%s vs %s" % (qa, qb)})
         except Exception as exc:
